@@ -1,9 +1,14 @@
 """One reactor lifetime for C11: real vncdotool.api with real threads against loopback servers.
 stdin: JSON spec; stdout: one JSON line with the observations."""
 import json
+import os
+import shutil
 import sys
+import tempfile
 import threading
 import time
+
+TMP = tempfile.mkdtemp(prefix="c11-")
 
 spec = json.load(sys.stdin)
 sys.path.insert(0, spec["repo"])
@@ -81,6 +86,8 @@ def hs(kind):
         return [("sleep", 0.4)] + hs("ok")
     if kind == "needpw":
         return [("send", b"RFB 003.008\n"), ("recv", 12), ("send", b"\x01\x02"), ("recv", 1), ("send", bytes(16)), ("silent",)]
+    if kind == "frames":
+        return hs("ok") + [("frames", 0.3)]
     raise ValueError(kind)
 
 
@@ -111,7 +118,17 @@ def drive(c):
             time.sleep(call["sleep"])
         t0 = time.time()
         try:
-            r = getattr(cl, call["method"])(*call["args"])
+            if call["method"] == "capture":
+                # the real captureScreen; the value is the number of the server reply the saved image shows
+                path = os.path.join(TMP, "c%s_%d.png" % (cid, len(out)))
+                cl.captureScreen(path)
+                from PIL import Image
+                r = Image.open(path).convert("RGB").getpixel((0, 0))[0] // 40
+            elif call["method"] == "capture_bad":
+                cl.captureScreen(os.path.join(TMP, "no-such-directory", "x.png"))
+                r = "obj"
+            else:
+                r = getattr(cl, call["method"])(*call["args"])
             out.append(["ret", r if isinstance(r, (int, type(None))) else "obj", round(time.time() - t0, 3)])
         except ValueError as e:
             out.append(["raise", "ValueError", e.args[0] if e.args else None, round(time.time() - t0, 3)])
@@ -139,4 +156,5 @@ for cid, s in servers.items():
     if s is not None:
         s.thread.join(2)
         received[cid] = b"".join(b for conn in s.received for b in conn).hex()
+shutil.rmtree(TMP, ignore_errors=True)
 print(json.dumps({"results": results, "log": LOG, "received": received}))
